@@ -150,11 +150,80 @@ impl Check for NewPanics {
     }
 }
 
+/// One long uninterrupted stream: the invariants at power-of-two checkpoints and at the end. Millions of
+/// observations are needed to reach arithmetic that depends on the marker positions (products of
+/// position gaps, accumulated desired positions).
+#[derive(Clone, Debug, Serialize, Deserialize)]
+pub struct Long {
+    #[serde(with = "fstr")]
+    pub p: f64,
+    pub n: u64,
+    /// 0 increasing ramp, 1 decreasing ramp, 2 pseudo-random uniform, 3 four-value alphabet
+    pub kind: u8,
+    pub seed: u64,
+}
+pub struct LongStream;
+impl Check for LongStream {
+    type Case = Long;
+    fn name(&self) -> &'static str {
+        "long_stream"
+    }
+    fn fp(&self, c: &Long, h: &mut Fp) {
+        h.f(c.p).u(c.n).u(c.kind as u64).u(c.seed);
+    }
+    fn test(&self, c: &Long, o: &mut Obs) -> TestResult {
+        if !(c.p >= 0.0 && c.p <= 1.0) || c.n > 200_000_000 {
+            o.discarded = Some("p outside [0,1] or stream longer than 2e8");
+            return Ok(());
+        }
+        o.nontrivial = c.n >= 1_000_000;
+        o.classf(format!("n={}M", c.n / 1_000_000));
+        let r = no_panic(|| -> TestResult {
+            let mut q = Quantile::new(c.p);
+            let mut r = Sm(c.seed + 1);
+            let (mut lo, mut hi) = (f64::INFINITY, f64::NEG_INFINITY);
+            let nf = c.n as f64;
+            for i in 0..c.n {
+                let x = match c.kind % 4 {
+                    0 => i as f64 / nf,
+                    1 => (c.n - i) as f64 / nf,
+                    2 => r.f(),
+                    _ => [0.0, 1.0, 3.0, 7.0][(r.below(4)) as usize],
+                };
+                q.add(x);
+                lo = lo.min(x);
+                hi = hi.max(x);
+                let k = i + 1;
+                if k == c.n || (k >= 1024 && k.is_power_of_two()) {
+                    o.evals += 3;
+                    if q.len() != k {
+                        return fail("quantile:len", format!("len() = {} after {} observations", q.len(), k));
+                    }
+                    let v = q.quantile();
+                    if !(v >= lo && v <= hi) {
+                        return fail("quantile:range", format!("after {} observations quantile() = {:?} lies outside [{:?}, {:?}] (p = {:?})", k, v, lo, hi, c.p));
+                    }
+                    if let Some((qs, _)) = markers(&q) {
+                        if qs.windows(2).any(|w| !(w[0] <= w[1])) || qs[0] != lo || qs[4] != hi {
+                            return fail("quantile:markers", format!("after {} observations marker heights {:?} are not non-decreasing from the minimum {:?} to the maximum {:?}", k, qs, lo, hi));
+                        }
+                    }
+                }
+            }
+            Ok(())
+        });
+        match r {
+            Ok(r) => r,
+            Err(m) => fail("panic", format!("a stream of {} finite observations in [0, 7] panicked: {}", c.n, m)),
+        }
+    }
+}
+
 pub fn run(cx: &Ctx) {
-    cx.set_rule("cases = the C05 stream generators (exhaustive small-alphabet streams, 10 kinds of random streams, all p) — after EVERY observation: len() == i, is_empty() == (i == 0), p() equal to the constructor argument (bit-equal when non-zero), quantile() NaN iff empty else within [running min, running max], and from the fifth observation the serialised marker heights non-decreasing with first = running min and last = running max; plus Quantile::new over valid p (0, 1, subnormals, random) and invalid p (negative, > 1, +-inf, NaN), which must panic. Non-trivial = stream of length >= 6 that is constant, strictly decreasing, has >= 50% ties or brings new extremes after initialisation; distinct = hash of (p bits, stream bits)");
+    cx.set_rule("cases = the C05 stream generators (exhaustive small-alphabet streams, 10 kinds of random streams, all p) — after EVERY observation: len() == i, is_empty() == (i == 0), p() equal to the constructor argument (bit-equal when non-zero), quantile() NaN iff empty else within [running min, running max], and from the fifth observation the serialised marker heights non-decreasing with first = running min and last = running max; plus six single streams of 3.7 to 7.2 million observations (thorough x4) with the invariants at power-of-two checkpoints; plus Quantile::new over valid p (0, 1, subnormals, random) and invalid p (negative, > 1, +-inf, NaN), which must panic. Non-trivial = stream of length >= 6 that is constant, strictly decreasing, has >= 50% ties or brings new extremes after initialisation; distinct = hash of (p bits, stream bits)");
     cx.assume("marker state is read from the serde representation (field q); if it is not present the marker invariant is skipped and counted");
     for (alpha, len) in exhaustive_plan(cx) {
-        cx.label(&format!("exhaustive-{}-values", alpha.len()));
+        cx.label(&format!("exhaustive-{}-values{}", alpha.len(), if alpha.iter().any(|a| a.to_bits() == (-0.0f64).to_bits()) { "-signed-zeros" } else { "" }));
         let np = P_GRID.len() as u64;
         let total = (alpha.len() as u64).pow(len as u32) * np;
         cx.run_enum(&Book, total, |i| Some(QStream { p: P_GRID[(i % np) as usize], xs: alphabet_stream(alpha, len, i / np) }), &format!("all streams of length {} over a {}-value alphabet x 8 values of p", len, alpha.len()));
@@ -174,6 +243,16 @@ pub fn run(cx: &Ctx) {
         QStream { p: 0.5, xs: vec![1e308, 1.5e308] },
         QStream { p: 0.25, xs: vec![f64::MAX, f64::MAX, f64::MAX, f64::MAX] },
     ], "K2 reproducer; huge same-sign observations in the <5 phase");
+    cx.label("long");
+    let m = cx.by(1, 4) as u64;
+    cx.run_list(&LongStream, vec![
+        Long { p: 1.0, n: 3_700_000 * m, kind: 0, seed: 1 },
+        Long { p: 0.0, n: 3_700_000 * m, kind: 1, seed: 2 },
+        Long { p: 0.5, n: 7_200_000 * m, kind: 2, seed: 3 },
+        Long { p: 0.9, n: 5_000_000 * m, kind: 2, seed: 4 },
+        Long { p: 0.25, n: 5_000_000 * m, kind: 3, seed: 5 },
+        Long { p: 0.99, n: 4_000_000 * m, kind: 0, seed: 6 },
+    ], "single streams of 3.7 to 7.2 million observations (thorough x4): ramps, uniform noise, a four-value alphabet; invariants at power-of-two checkpoints and at the end");
     let mut ps: Vec<PArg> = [0.0, -0.0, 1.0, 0.5, 5e-324, f64::MIN_POSITIVE, 1.0 - f64::EPSILON / 2.0, -5e-324, -1e-300, 1.0 + f64::EPSILON, 2.0, -1.0, f64::INFINITY, f64::NEG_INFINITY, f64::NAN, 1e300, -1e300].iter().map(|&p| PArg { p }).collect();
     ps.push(PArg { p: f64::from_bits(0x7ff8_0000_0000_0001) });
     cx.run_list(&NewPanics, ps, "boundary and invalid constructor arguments");
@@ -185,6 +264,7 @@ pub fn replay(check: &str, case: &serde_json::Value) -> Option<Result<(), String
     match check {
         "range_and_bookkeeping" => Some(replay_case(&Book, case)),
         "constructor_domain" => Some(replay_case(&NewPanics, case)),
+        "long_stream" => Some(replay_case(&LongStream, case)),
         _ => None,
     }
 }
